@@ -25,7 +25,7 @@ GInit == S = [Opened EXCEPT !.sigs = Append(@, G0)] /\ k = 0
 
 GWrite == /\ k < MaxCalls
           /\ \E id \in Ids, n \in Lens :
-                S' = Update(S, [e |-> "WrFsr", sig |-> 1, id |-> id, n |-> n, rc |-> 0, q |-> k + 1])
+                S' = Update(S, [e |-> "WrFsr", sig |-> 1, id |-> id, n |-> n, rc |-> 0, q |-> k + 1, gen |-> "rnd", gp |-> 0, w |-> <<0, 0>>])
           /\ k' = k + 1
 GOmit == /\ k < MaxCalls
          /\ \E en \in {0, 1} : S' = Update(S, [e |-> "Omit", sig |-> 1, en |-> en, rc |-> 0, q |-> k + 1])
